@@ -19,7 +19,9 @@ func runC17(p *Program, r *Report) {
 	ruleR172(p, r)
 	r.Rule("R17.3", "E3", 3, "stale views become errors: each key ring transaction that depends on the state it was built from (current key, key state, free sequence number) compares that state with the freshly pulled ring and returns a transaction error before it changes anything")
 	ruleR173(p, r)
-	r.Rule("R17.4", "E3+E2", 4, "the shared v1 key cache: every method of the wrapped LRU (all of them reorder or change the list) is called under the exclusive lock, and a reader receives a fresh copy, never the stored slice that eviction wipes in place")
+	r.Rule("R17.5", "E3", 2, "no write from an unchecked view: every function that stores a ring (pushNewRingState) has, under the same exclusive lock acquisition, first pulled that ring's current state (pullRingUpdates) - a ring is never created or overwritten on the strength of what an earlier, already released lock saw")
+	ruleR175(p, r)
+	r.Rule("R17.4", "E3+E2", 5, "the shared v1 key cache: every method of the wrapped LRU (all of them reorder or change the list) is called under the exclusive lock, and a reader receives a fresh copy, never the stored slice that eviction wipes in place")
 	ruleR174(p, r)
 }
 
@@ -336,6 +338,33 @@ func ruleR174(p *Program, r *Report) {
 			}
 			r.Check(locked && !rlocked, "R17.4", fnName(fn), "lru."+cs.Callee.Name()+" under the exclusive lock", p.Pos(cs.Instr.Pos()), "mutex.Lock() precedes", "the LRU list is touched without the exclusive lock (every groupcache/lru method, Get included, rewrites the list): concurrent connections race on it")
 		}
+		if fn.Name() == "Add" {
+			okOwn := false
+			for _, cs := range callsIn(fn) {
+				if cs.Callee != nil && cs.Callee.Pkg() != nil && cs.Callee.Pkg().Path() == "github.com/golang/groupcache/lru" && cs.Callee.Name() == "Add" {
+					v := cs.Instr.Common().Args[len(cs.Instr.Common().Args)-1]
+					okOwn = true
+					for x := range backClosure(v) {
+						if x == ssa.Value(paramByName(fn, "keyValue")) {
+							// the parameter may only be read by len/copy, never stored itself
+							if mi, isMi := v.(*ssa.MakeInterface); isMi {
+								if mi.X == x {
+									okOwn = false
+								}
+								if phi, isPhi := mi.X.(*ssa.Phi); isPhi {
+									for _, e := range phi.Edges {
+										if e == x {
+											okOwn = false
+										}
+									}
+								}
+							}
+						}
+					}
+				}
+			}
+			r.Check(okOwn, "R17.4", fnName(fn), "the cache stores its own copy", p.Pos(fn.Pos()), "lru.Add(key, fresh copy)", "Add keeps the caller's slice; eviction wipes it in place while the caller may still be using the key")
+		}
 		if fn.Name() == "Get" {
 			okCopy := false
 			for _, ret := range returnsOf(fn) {
@@ -380,5 +409,47 @@ func init() {
 	mut("C17", "set-current ignores a concurrent change", "keystore/v2/keystore/filesystem/keyRingTX.go", "	if ring.data.Current != tx.oldSeqnum {\n		return errTxConcurrentModification\n	}\n", "", "R17.3", "current key")
 	mut("C17", "add-key overwrites an existing sequence number", "keystore/v2/keystore/filesystem/keyRingTX.go", "	if k != nil {\n		return errTxKeyExists\n	}\n", "	_ = k\n", "R17.3", "sequence number")
 	mut("C17", "cache readers under the read lock (original defect)", "keystore/lru/cache.go", "	cache.mutex.Lock()\n	defer cache.mutex.Unlock()\n	value, ok := cache.lru.Get(keyID)", "	cache.mutex.RLock()\n	defer cache.mutex.RUnlock()\n	value, ok := cache.lru.Get(keyID)", "R17.4", "lru.Get")
+	mut("C17", "cache stores the caller's slice (original defect)", "keystore/lru/cache.go", "	cache.lru.Add(keyID, stored)", "	cache.lru.Add(keyID, keyValue)", "R17.4", "own copy")
 	mut("C17", "cache hands out the stored slice (original defect)", "keystore/lru/cache.go", "		result := make([]byte, len(stored))\n		copy(result, stored)\n		return result, ok", "		return stored, ok", "R17.4", "copy")
+}
+
+func ruleR175(p *Program, r *Report) {
+	n := 0
+	for _, fn := range p.SrcFuncs("keystore/v2/keystore/filesystem") {
+		pushes := callsNamed(fn, "pushNewRingState")
+		if len(pushes) == 0 || fn.Name() == "pushNewRingState" {
+			continue
+		}
+		var lock *ssa.Call
+		for _, cs := range callsIn(fn) {
+			if c, ok := cs.Instr.(*ssa.Call); ok && isFsInvoke(c, "Lock") {
+				lock = c
+			}
+		}
+		for _, ps := range pushes {
+			n++
+			ok, why := false, ""
+			switch {
+			case lock == nil:
+				why = "the ring is stored by a function that does not itself take the exclusive lock and re-read the ring"
+			default:
+				for _, pl := range callsNamed(fn, "pullRingUpdates") {
+					if nilEdgeDominates(lock, pl.Block()) && (pl.Block().Dominates(ps.Block()) || pl.Block() == ps.Block() && instrBefore(pl, ps)) {
+						ok = true
+					}
+				}
+				if !ok {
+					why = "the ring is stored without having been re-read after the exclusive lock was taken"
+				}
+			}
+			r.Check(ok, "R17.5", fnName(fn), "ring re-read under the lock before it is stored", p.Pos(ps.Pos()), "Lock -> pullRingUpdates -> ... -> pushNewRingState", why+": what another writer stored between the earlier look and this write is overwritten (a freshly created ring wipes the keys another handle just added)")
+		}
+	}
+	if n < 2 {
+		r.Bad("R17.5", "keystore/v2/keystore/filesystem", "ring writers", "-", "fewer ring-storing functions found than the two confirmed by reading")
+	}
+}
+
+func init() {
+	mut("C17", "a missing ring is created without looking again under the lock", "keystore/v2/keystore/filesystem/keyStoreLoad.go", "	err = s.pullRingUpdates(ring)\n	if err != nil {\n		// If we tried to pull non-existent key ring, create a new empty one instead.\n		if err == backend.ErrNotExist {\n			return s.pushNewRingState(ring)\n		}\n		return err\n	}\n	return nil", "	return s.pushNewRingState(ring)", "R17.5", "re-read under the lock")
 }
